@@ -348,6 +348,20 @@ func (c *Ctx) nilTypes(rule string, fns []*ssa.Function, floor int) {
 		}
 	}
 	r.Extra["typeof_sites"] = sites
+	// "always ends in a value or an error": the two entry points that hand back an object never hand back
+	// (nil, nil) - each return has a non-nil error or a non-nil object
+	if rule == "R15.N" {
+		for _, name := range []string{"DecodeUnknownObject"} {
+			if f := c.P.Func(load.TLPkg, "", name); f != nil {
+				nn.Why = ""
+				r.Check(nn.PairContract(f, 0), rule, "value-or-error:"+name, c.pos(f.Pos()), name+" returns a nil object only together with an error: "+nn.Why)
+			}
+		}
+		if f := c.P.Func(load.TLPkg, "*Decoder", "DecodeNestedObject"); f != nil {
+			nn.Why = ""
+			r.Check(nn.PairContract(f, 0), rule, "value-or-error:DecodeNestedObject", c.pos(f.Pos()), "DecodeNestedObject returns a nil object only together with an error: "+nn.Why)
+		}
+	}
 }
 
 func fieldKeyOf(fa *ssa.FieldAddr) (string, *types.Struct) {
